@@ -503,6 +503,9 @@ struct Context<'input> {
     current_attributes: Vec<TempAttributeData<'input>>,
     awaiting_subtree: Vec<NodeId>,
     parent_prefixes: Vec<&'input str>,
+    // Number of open elements when the current entity was entered (0 outside of entities).
+    // Elements opened before that point must not be closed from inside the entity.
+    entity_floor: usize,
     entities: Vec<Entity<'input>>,
     after_text: Vec<Cow<'input, str>>,
     parent_id: NodeId,
@@ -629,6 +632,7 @@ fn parse(text: &str, opt: ParsingOptions) -> Result<Document> {
         entities: Vec::new(),
         awaiting_subtree: Vec::new(),
         parent_prefixes: vec![""],
+        entity_floor: 0,
         after_text: Vec::with_capacity(1),
         parent_id: NodeId::new(0),
         tag_name: TagNameSpan::new_null(),
@@ -837,6 +841,13 @@ fn process_element<'input>(
             ctx.awaiting_subtree.push(new_element_id);
         }
         tokenizer::ElementEnd::Close(prefix, local) => {
+            // An entity must not close an element that was opened outside of it.
+            if ctx.parent_prefixes.len() <= ctx.entity_floor {
+                return Err(Error::UnexpectedEntityCloseTag(
+                    ctx.doc.text_pos_at(token_range.start),
+                ));
+            }
+
             let parent_node = &mut ctx.doc.nodes[ctx.parent_id.get_usize()];
             // should never panic as we start with the single prefix of the
             // root node and always push another one when changing the parent
@@ -1025,8 +1036,15 @@ fn process_text<'input>(
 
                 let mut stream = Stream::from_substr(ctx.doc.text, fragment.range());
                 let prev_tag_name = ctx.tag_name;
+                let prev_floor = ctx.entity_floor;
                 ctx.tag_name = TagNameSpan::new_null();
+                ctx.entity_floor = ctx.parent_prefixes.len();
                 tokenizer::parse_content(&mut stream, ctx)?;
+                // All elements opened inside an entity must be closed inside it.
+                if ctx.parent_prefixes.len() != ctx.entity_floor {
+                    return Err(Error::UnexpectedEndOfStream);
+                }
+                ctx.entity_floor = prev_floor;
                 ctx.tag_name = prev_tag_name;
                 text_buffer.clear();
 
